@@ -3,6 +3,9 @@ use std::net::ToSocketAddrs;
 use std::sync::Arc;
 
 use tokio::io;
+#[cfg(memcrs_verif)]
+use simseam::net::TcpListener;
+#[cfg(not(memcrs_verif))]
 use tokio::net::TcpListener;
 use tokio::sync::Semaphore;
 
@@ -93,6 +96,9 @@ impl MemcacheTcpServer {
         &mut self,
         addr: A,
     ) -> Result<TcpListener, std::io::Error> {
+        #[cfg(memcrs_verif)]
+        return TcpListener::sim_bind(addr, self.config.listen_backlog);
+        #[cfg_attr(memcrs_verif, allow(unreachable_code))]
         let socket = Socket::new(Domain::IPV4, Type::STREAM, None)?;
         socket.set_reuse_address(true)?;
         socket.set_reuse_port(true)?;
